@@ -1,8 +1,11 @@
 #!/bin/bash
 # usage: seedverify.sh <id>   -- confirms a sub-agent's seeded change in its scratch worktree /tmp/seed-<id>
 # and copies it to /verif/seeded/<id>/ . Prints a JSON summary line.
+# usage: seedverify.sh <id> [round]   (round 2: worktree /tmp/seed2-<id>, kept as seeded/<id>-2)
 id=$1
-wt=/tmp/seed-$id
+round=${2:-}
+wt=/tmp/seed$round-$id
+[ -n "$round" ] && id=$id-$round
 export GOFLAGS=-mod=mod GOPROXY=off
 set -u
 mkdir -p /verif/seeded/$id
